@@ -298,10 +298,11 @@ func main() { println(ra.Render("")) }
 // ---------------------------------------------------------------- one application instance
 
 type node struct {
-	spec cfgSpec
-	db   dbm.DB
-	dir  string
-	app  *sdk.BaseApp
+	spec    cfgSpec
+	db      dbm.DB
+	dir     string
+	app     *sdk.BaseApp
+	genesis string // canonical InitChain response
 }
 
 var tmpRoot string
@@ -349,15 +350,45 @@ func (n *node) newApp() {
 
 // restart: close the application (and with it the database), reopen the database,
 // build a new application over it.  memdb's Close is a no-op, so the same object
-// is reused there.
+// is reused there.  Before the first block is committed nothing is persisted
+// (InitChain does not commit): a node restarted then runs InitChain again, as the
+// consensus handshake does for an application at height 0.
 func (n *node) restart() {
-	runtime.GOMAXPROCS(n.spec.procs)
+	// start-up itself (re-preprocessing every stored package, single-threaded Go
+	// code) runs with all processors to keep the check affordable; the instance's
+	// own GOMAXPROCS is set again before its next block step
+	runtime.GOMAXPROCS(16)
 	n.app.Close()
 	if n.spec.backend != 'm' {
 		n.db = openDB(n.spec, n.dir)
 	}
 	n.app = nil
 	n.newApp()
+	if n.app.LastBlockHeight() == 0 {
+		before := n.genesis
+		n.initChain()
+		if n.genesis != before {
+			panic("InitChain after a restart at height 0 answered differently")
+		}
+	}
+}
+
+func (n *node) initChain() {
+	resp := n.app.InitChain(abci.RequestInitChain{
+		Time: time.Unix(t0, 0), ChainID: chainID,
+		ConsensusParams: &abci.ConsensusParams{Block: &abci.BlockParams{MaxTxBytes: 1e6, MaxDataBytes: 2e6, MaxGas: 3e10, TimeIotaMS: 100}},
+		AppState:        genesis(),
+	})
+	if resp.Error != nil {
+		panic(resp.Error)
+	}
+	var b strings.Builder
+	for _, r := range resp.TxResponses {
+		d := txDigest(r)
+		b.WriteString(strings.Join(d[:], "|") + ";")
+	}
+	b.WriteString(string(amino.MustMarshalJSON(resp.Validators)))
+	n.genesis = b.String()
 }
 
 func (n *node) close() {
@@ -426,15 +457,7 @@ func newNode(spec cfgSpec, idx int) *node {
 	}
 	n.db = openDB(spec, n.dir)
 	n.newApp()
-	resp := n.app.InitChain(abci.RequestInitChain{
-		Time: time.Unix(t0, 0), ChainID: chainID,
-		ConsensusParams: &abci.ConsensusParams{Block: &abci.BlockParams{MaxTxBytes: 1e6, MaxDataBytes: 2e6, MaxGas: 3e10, TimeIotaMS: 100}},
-		AppState:        genesis(),
-	})
-	if resp.Error != nil {
-		panic(resp.Error)
-	}
-	n.app.Commit()
+	n.initChain() // no Commit: block 1 starts from InitChain's deliver state, as on a real node
 	return n
 }
 
@@ -481,11 +504,11 @@ func (w *world) open(cfgs []cfgSpec) string {
 		w.nodes = append(w.nodes, newNode(c, i))
 	}
 	w.opened = true
-	// the genesis state itself must already agree
-	ref := w.nodes[0].app.LastCommitID().Hash
+	// the genesis transactions' results must already agree (the genesis state
+	// itself is covered by the app hash of block 1)
 	for i, n := range w.nodes[1:] {
-		if !bytes.Equal(ref, n.app.LastCommitID().Hash) {
-			return fmt.Sprintf("VIOL:apphash-diverge genesis cfg=%s#%d %x vs %x", n.spec.text, i+1, ref, n.app.LastCommitID().Hash)
+		if n.genesis != w.nodes[0].genesis {
+			return fmt.Sprintf("VIOL:result-diverge genesis cfg=%s#%d ref=%.150s got=%.150s", n.spec.text, i+1, w.nodes[0].genesis, n.genesis)
 		}
 	}
 	return "ok"
@@ -531,6 +554,27 @@ func txDigest(r abci.ResponseDeliverTx) [4]string {
 
 var digestField = [4]string{"error", "data", "events", "gas"}
 
+// diffAt: the two strings from (a little before) their first difference.
+func diffAt(a, b string) (string, string) {
+	i := 0
+	for i < len(a) && i < len(b) && a[i] == b[i] {
+		i++
+	}
+	if i > 20 {
+		i -= 20
+	} else {
+		i = 0
+	}
+	cut := func(s string) string {
+		s = s[i:]
+		if len(s) > 110 {
+			s = s[:110]
+		}
+		return strings.ReplaceAll(s, " ", "_")
+	}
+	return cut(a), cut(b)
+}
+
 func (w *world) buildTx(op *opSpec) []byte {
 	priv := userKey(op.who)
 	from := priv.PubKey().Address()
@@ -570,8 +614,15 @@ func (w *world) buildTx(op *opSpec) []byte {
 	// at the start of every block, the sequence then tracked inside the block
 	// (queries read the last committed state, not the block being built)
 	if !w.inBlock {
-		for _, u := range []string{"u0", "u1", "u2", "x0"} {
+		for i, u := range []string{"u0", "u1", "u2", "x0"} {
 			w.num[u], w.seq[u] = 0, 0
+			if w.height == 1 {
+				// nothing is committed yet, so nothing can be queried: the genesis
+				// accounts are numbered in the order of the balances; the genesis
+				// transaction (signature check skipped) did not consume a sequence
+				w.num[u] = uint64(i)
+				continue
+			}
 			if bz, ok := w.nodes[0].query("auth/accounts/"+userKey(u).PubKey().Address().String(), nil); ok && string(bz) != "null" {
 				var acc gnoland.GnoAccount
 				amino.MustUnmarshalJSON(bz, &acc)
@@ -609,6 +660,9 @@ func (w *world) deliver(op *opSpec) (string, string) {
 		}
 		r := n.app.DeliverTx(abci.RequestDeliverTx{Tx: txbz})
 		d := txDigest(r)
+		if os.Getenv("C01_EV") != "" {
+			fmt.Fprintf(os.Stderr, "node %d %s: gas=%s events=%s\n", i, n.spec.text, d[3], d[2])
+		}
 		if i == 0 {
 			ref, refRes = d, r
 			if os.Getenv("C01_LOG") != "" && r.Error != nil {
@@ -619,7 +673,8 @@ func (w *world) deliver(op *opSpec) (string, string) {
 		if d != ref && verdict == "ok" {
 			for f := range d {
 				if d[f] != ref[f] {
-					verdict = fmt.Sprintf("VIOL:result-diverge cfg=%s#%d field=%s ref=%.120s got=%.120s", n.spec.text, i, digestField[f], ref[f], d[f])
+					a, b := diffAt(ref[f], d[f])
+					verdict = fmt.Sprintf("VIOL:result-diverge cfg=%s#%d field=%s ref=%s got=%s", n.spec.text, i, digestField[f], a, b)
 					break
 				}
 			}
@@ -693,6 +748,9 @@ func (w *world) commit() (string, string) {
 			verdict = fmt.Sprintf("VIOL:apphash-diverge cfg=%s#%d h=%d ref=%x got=%x", n.spec.text, i, w.height, refHash, cr.Data)
 		}
 	}
+	h := w.height
+	w.height++
+	w.inBlock, w.boundary = false, true
 	for _, n := range w.nodes {
 		if n.spec.restart == 'e' {
 			if v := w.safeRestart(n); v != "" && verdict == "ok" {
@@ -704,13 +762,10 @@ func (w *world) commit() (string, string) {
 	for i, n := range w.nodes[1:] {
 		runtime.GOMAXPROCS(n.spec.procs)
 		if d, x := w.dump(n), w.extra(n); (d != refDump || x != refExtra) && verdict == "ok" {
-			verdict = fmt.Sprintf("VIOL:state-diverge cfg=%s#%d h=%d ref=%.100s got=%.100s", n.spec.text, i+1, w.height, refDump+refExtra, d+x)
+			verdict = fmt.Sprintf("VIOL:state-diverge cfg=%s#%d h=%d ref=%.100s got=%.100s", n.spec.text, i+1, h, refDump+refExtra, d+x)
 		}
 	}
-	out := fmt.Sprintf("h=%d%s", w.height, refDump)
-	w.height++
-	w.inBlock, w.boundary = false, true
-	return out, verdict
+	return fmt.Sprintf("h=%d%s", h, refDump), verdict
 }
 
 func (w *world) safeRestart(n *node) (verdict string) {
@@ -720,18 +775,11 @@ func (w *world) safeRestart(n *node) (verdict string) {
 		}
 	}()
 	n.restart()
-	if h := n.app.LastBlockHeight(); h != w.lastCommitted() {
-		return fmt.Sprintf("VIOL:restart-failed cfg=%s height %d after restart, want %d", n.spec.text, h, w.lastCommitted())
+	// restarts happen at block boundaries only: w.height-1 blocks are committed
+	if h := n.app.LastBlockHeight(); h != w.height-1 {
+		return fmt.Sprintf("VIOL:restart-failed cfg=%s height %d after restart, want %d", n.spec.text, h, w.height-1)
 	}
 	return ""
-}
-
-func (w *world) lastCommitted() int64 {
-	if w.inBlock || !w.boundary {
-		return w.height - 1
-	}
-	// called between Commit and height++ (restart=e) or at a boundary (restart op)
-	return w.nodes[0].app.LastBlockHeight()
 }
 
 var profOn = os.Getenv("C01_PROF") != ""
